@@ -1,6 +1,7 @@
 """C07 — cancel, move and amend do exactly what they report; read-only calls are pure."""
 from . import gen, lvl
 from .lvlprop import *
+from .c06 import judges_agree
 
 IDENT = ("kind", "id", "price", "side", "ts", "tif", "params")
 
@@ -64,9 +65,100 @@ def judge(rec, price, ops):
                 else:
                     if out != "ok:-" or before != after:
                         return [(o["i"], "amend of unknown id %s: returns %s / book changed" % (k, out))]
+            if all(x in d and x in prev for x in ("cv", "ch", "cc")) and not upd_stmt_ok(price, prev, op[4:], d):
+                return [(o["i"], "`%s` returning %s: the book after the call or the aggregates (%s/%s/%s -> %s/%s/%s) are not what the update kind prescribes" % (
+                    op, out[:80], prev.get("cv"), prev.get("ch"), prev.get("cc"), d.get("cv"), d.get("ch"), d.get("cc")))]
         if "vec" in d and d.get("built", "ok") == "ok":
             prev = d
     return []
+
+
+# ---- the statement handed to the extracted Coq judge (Spec/Judges.v: update_ok_b <=> UpdateOk, update_counts_b <=>
+# UpdateCounts; Properties/Tie.v Tie_judge_update*): one per update call, from the listing and the aggregates before,
+# the update, the returned outcome, the listing and the aggregates after.  Left to the python judge above and to the
+# differential run: "a cancelled order never trades" (a statement about the rest of the history), queue position
+# (visible only through later matches), read purity (metamorphic run below).
+
+def _wsub(a, b):
+    return (a + W - b % W) % W
+
+
+def _delta(c, old, new):
+    return c if old == new else ((c + (new - old)) % W if old < new else _wsub(c, old - new))
+
+
+def _book(vec):
+    m = {}
+    for x in gen.parse_list(vec):
+        m.setdefault(gen.parse_order(x)["id"], x)      # first row wins, as Queue.lookup
+    return m
+
+
+def _with_reduced_quantity(x, nq):
+    f = x.split(":")
+    if f[0] in "SPI":
+        f[6] = str(nq)
+    return ":".join(f)
+
+
+def upd_stmt_ok(price, prev, ustr, d):
+    """python restatement of UpdateOk /\ UpdateCounts (Spec/Judges.v) on one call"""
+    u = ustr.split(":")
+    kind, k = u[0], u[1]
+    before, after = _book(prev["vec"]), _book(d["vec"])
+    out = d["out"]
+    cb = tuple(int(prev[x]) for x in ("cv", "ch", "cc"))
+    ca = tuple(int(d[x]) for x in ("cv", "ch", "cc"))
+    if kind == "C":
+        cls = "out"
+    elif kind == "UQ":
+        cls, nq = "amend", int(u[2])
+    elif kind == "UP":
+        cls = "reject" if int(u[2]) == price else "out"
+    else:                                   # UPQ:<id>:<price>:<qty>   RP:<id>:<price>:<qty>:<side>
+        cls, nq = ("amend", int(u[3])) if int(u[2]) == price else ("out", None)
+    rest = lambda m: {x: y for x, y in m.items() if x != k}
+    if cls == "reject":
+        return out == "err" and after == before and ca == cb
+    if k not in before:
+        return out == "ok:-" and after == before and ca == cb
+    o = gen.parse_order(before[k])
+    if cls == "out":
+        return (out == "ok:" + before[k] and k not in after and rest(after) == rest(before)
+                and ca == (_wsub(cb[0], o["vis"]), _wsub(cb[1], o["hid"]), _wsub(cb[2], 1)))
+    n = _with_reduced_quantity(before[k], nq)
+    return (out == "ok:" + n and after.get(k) == n and rest(after) == rest(before)
+            and ca == (_delta(cb[0], o["vis"], gen.parse_order(n)["vis"]), cb[1], cb[2]))
+
+
+def statements(rec, price, ops):
+    """-> [(opindex, JUDGE query, text, verdict of the python restatement on exactly this statement)]"""
+    res, prev = [], None
+    for o in rec["ops"]:
+        I = o["I"]
+        if I in ("panic", "skipped", "timeout") or I.startswith("read="):
+            continue
+        d = lvl.kv(I.split(" || ")[0])
+        op = o["op"]
+        if op.startswith("UPD ") and prev is not None and "out" in d and all(x in d and x in prev for x in ("vec", "cv", "ch", "cc")):
+            q = "upd %d %s %s/%s/%s %s %s %s %s/%s/%s" % (price, prev["vec"], prev["cv"], prev["ch"], prev["cc"], op[4:], d["out"],
+                                                         d["vec"], d["cv"], d["ch"], d["cc"])
+            res.append((o["i"], q, "`%s` returning %s: outcome, book after the call or aggregates are not what the update kind prescribes" % (op, d["out"][:80]),
+                        upd_stmt_ok(price, prev, op[4:], d)))
+        if "vec" in d and d.get("built", "ok") == "ok":
+            prev = d
+    return res
+
+
+_STMTS = []      # (price, ops, opindex, query, python verdict) of the statements judged in this run
+
+
+def coq_queries(rec, price, ops):
+    out = []
+    for (i, q, text, py) in statements(rec, price, ops):
+        _STMTS.append((price, ops, i, q, py))
+        out.append((i, q, text))
+    return out
 
 
 def corr_filter(text):
@@ -85,7 +177,9 @@ def purity(ck):
     with_reads, without = [], []
     for i in range(n):
         g = lvl.HistGen(rng, rebuilds=False)
-        ops = g.history(rng.randint(8, 30))
+        # a third of the histories amend/cancel-heavy (stale queue entries pile up: what a read-only call could be tempted to tidy)
+        g.upd_heavy = (i % 3 == 1)
+        ops = g.history(rng.randint(8, 30) * (2 if g.upd_heavy else 1))
         extra = []
         for o in ops:
             extra.append(o)
@@ -126,4 +220,5 @@ def make_cases(rng, tier):
 
 def run(tier, seed, replay=None):
     return run_property("C07", tier, seed, replay, make_cases=make_cases, judge=judge, corr_filter=corr_filter,
-                        nontrivial=lambda rec, price, ops: any(o.startswith("UPD") for o in ops), extra_obligations=purity)
+                        nontrivial=lambda rec, price, ops: any(o.startswith("UPD") for o in ops), coq_queries=coq_queries,
+                        extra_obligations=lambda ck: (judges_agree(ck, _STMTS, "UpdateOk and UpdateCounts, per update call"), purity(ck)))
